@@ -73,6 +73,20 @@ class C15(Prop):
         start = rng.randint(0, max(0, size))
         nsteps = (case["eplen"] or size) + 1
         case["ops"] = [["reset", fold, start]] + [["step", [str(Fraction(i % 5, 8))]] for i in range(nsteps + 1)]
+        if rng.random() < 0.2:
+            # a request that cannot fit (refused) right before the real one: the refusal leaves nothing behind
+            too_long = size + rng.randint(2, 6)
+            if rng.random() < 0.5:
+                case["ops"] = [["reset", fold, 0, too_long]] + case["ops"]
+                case["_prefix"] = 1
+            else:
+                # ... or: an episode on this fold, then a request on the *other* fold that cannot fit there (refused),
+                # then the episode that is judged, on this fold again
+                other = next(f for f in folds if f != fold)
+                osize = len([g for g in grid if folds[other][0] <= g <= folds[other][1]])
+                case["ops"] = [["reset", fold, 0], ["step", ["1/8"]], ["reset", other, 0, osize + rng.randint(2, 6)]] + case["ops"]
+                case["_prefix"] = 3
+            case["_refused_first"] = True
         case["kind"] = "episode"
         # a second live environment with its own Transmitter over other data (built and reset before the one under test)
         case["sibling"] = rng.random() < 0.3
@@ -88,6 +102,15 @@ class C15(Prop):
         if s.env is None:
             return r
         grid = sorted(set(case["grid"]))
+        if case.get("_refused_first"):
+            r.tags.add("refused-request-first")
+            k = case.get("_prefix", 1)
+            refused = s.obs[k - 1] if len(s.obs) >= k else None
+            if refused is not None and refused["status"].startswith("ok"):
+                r.fail("reset-accepted-though-none-fits", theorem="refused_iff_none_fits", length=case["ops"][k - 1][3])
+            s.obs = s.obs[k:]
+            if not s.obs:
+                return r
         ro = s.obs[0]
         lo, hi = ro["lo"], ro["hi"]
         # event-bearing timesteps of the fold, from the property text
